@@ -48,18 +48,20 @@ def audit():
 
 
 def compile_props(pid):
-    """Compile Props/<pid>*.v one by one; returns list of dict(file, ok, theorems, assumptions, log)."""
-    res = []
-    for f in sorted(glob.glob(os.path.join(COQ, "Props", pid + "*.v"))):
+    """Compile Props/<pid>*.v (8 at a time); returns list of dict(file, ok, theorems, assumptions, log)."""
+    from concurrent.futures import ThreadPoolExecutor
+
+    def one(f):
         rel = os.path.relpath(f, COQ)
         txt = open(f).read()
         thms = re.findall(r"^\s*(?:Theorem|Example|Corollary)\s+(\w+)", txt, flags=re.M)
         rc, out = B.sh(f"timeout 900 coqc -Q . JV -w -notation-overridden,-deprecated-hint-without-locality {rel} 2>&1", cwd=COQ, timeout=1000)
         axioms = sorted(set(re.findall(r"^([\w.]+)\s*:", out, flags=re.M)) - {"File"}) if "Axioms:" in out else []
         closed = out.count("Closed under the global context")
-        res.append(dict(file=rel, ok=(rc == 0), theorems=thms, axioms=axioms, closed=closed,
-                        log=out[-1500:] if rc != 0 else ""))
-    return res
+        return dict(file=rel, ok=(rc == 0), theorems=thms, axioms=axioms, closed=closed, log=out[-1500:] if rc != 0 else "")
+    files = sorted(glob.glob(os.path.join(COQ, "Props", pid + "*.v")))
+    with ThreadPoolExecutor(max_workers=int(os.environ.get("VERIF_PROP_JOBS", "8"))) as ex:
+        return list(ex.map(one, files))
 
 
 def deps_failed(pid, failed):
